@@ -67,6 +67,89 @@ theorem n2n_tool_fin_history (c : Cfg) (k : Nat) (tevs : List TEv) (id : Nat) (p
   · exact Or.inr (Or.inl hd)
   · exact Or.inr (Or.inr hg)
 
+/-! ### "earlier in the history" (claim audit 2, C20 item 7)
+
+`AcceptedBefore` / `TAcceptedBefore` only assert that some `HandleMessage` event with that id occurs *somewhere* in the
+history. The strengthened forms pin the position: the history splits as `es1 ++ e :: es2` with `e` the `HandleMessage`
+event of that id; `outT` is the output of `e`'s own step (the trace of `es1 ++ [e]` is the trace of `es1` followed by
+`outT`), the `publish a id b` sits in `outT`, and `trace es1 ++ outT` is a prefix of what precedes the `accepted a id` —
+so the delivery and the publish it caused come BEFORE the acknowledgement, in this order. -/
+
+def AcceptedEarlier (c : Cfg) (evs : List Ev) (pre : List Out) (id : Nat) : Prop :=
+  ∃ pre' a b, pre = pre' ++ [Out.accepted a id] ∧
+    ∃ es1 e es2 outT rest, evs = es1 ++ e :: es2 ∧
+      run c init (es1 ++ [e]) = run c init es1 ++ outT ∧ Out.publish a id b ∈ outT ∧
+      pre' = run c init es1 ++ outT ++ rest ∧
+      ∃ m f p ae, e = Ev.msg m f p ae ∧ m.id = id ∧ (c.filterOn = false → b = m.body) ∧ (c.filterOn = true → f = .pass b)
+
+def TAcceptedEarlier (c : Cfg) (k : Nat) (tevs : List TEv) (pre : List Out) (id : Nat) : Prop :=
+  ∃ pre' a b, pre = pre' ++ [Out.accepted a id] ∧
+    ∃ ts1 t ts2 outT rest, tevs = ts1 ++ t :: ts2 ∧
+      consumeRun c k init (ts1 ++ [t]) = consumeRun c k init ts1 ++ outT ∧ Out.publish a id b ∈ outT ∧
+      pre' = consumeRun c k init ts1 ++ outT ++ rest ∧
+      ∃ m f p ae, t.ev = .msg m f p ae ∧ m.id = id ∧ (c.filterOn = false → b = m.body) ∧ (c.filterOn = true → f = .pass b)
+
+/-- the strengthened predicates imply the former ones -/
+theorem AcceptedEarlier.before {c : Cfg} {evs : List Ev} {pre : List Out} {id : Nat}
+    (h : AcceptedEarlier c evs pre id) : AcceptedBefore c evs pre id := by
+  obtain ⟨pre', a, b, hp, es1, e, es2, outT, rest, hev, _, hpub, hpre, m, f, p, ae, he, hrest⟩ := h
+  refine ⟨pre', a, b, hp, ?_, m, f, p, ae, ?_, hrest⟩
+  · rw [hpre]; simp [hpub]
+  · rw [hev, ← he]; simp
+
+theorem TAcceptedEarlier.before {c : Cfg} {k : Nat} {tevs : List TEv} {pre : List Out} {id : Nat}
+    (h : TAcceptedEarlier c k tevs pre id) : TAcceptedBefore c tevs pre id := by
+  obtain ⟨pre', a, b, hp, ts1, t, ts2, outT, rest, hev, _, hpub, hpre, hrest⟩ := h
+  refine ⟨pre', a, b, hp, ?_, t, ?_, hrest⟩
+  · rw [hpre]; simp [hpub]
+  · rw [hev]; simp
+
+/-- **FIN only after accept, the tool as shipped, with positions**: every `fin id` of every history is immediately
+preceded by `accepted a id`, whose `publish a id b` was emitted by the step of an EARLIER `HandleMessage` delivery of
+that id — or a filter dropped such a delivery, or go-nsq gave up on one. -/
+theorem n2n_tool_fin_history_earlier (c : Cfg) (k : Nat) (tevs : List TEv) (id : Nat) (pre post : List Out)
+    (h : consumeRun c k init tevs = pre ++ Out.fin id :: post) :
+    TAcceptedEarlier c k tevs pre id ∨ Dropped c tevs id ∨ GaveUp k tevs id := by
+  rcases fin_split_pos c k tevs init id pre post h with ⟨pre', a, b, hp, horig⟩ | hd | hg
+  · left
+    rcases horig with hin | hpos
+    · simp [init] at hin
+    · exact ⟨pre', a, b, hp, hpos⟩
+  · exact Or.inr (Or.inl hd)
+  · exact Or.inr (Or.inr hg)
+
+/-- … and for the handler + responder alone (`n2n_fin_history` with the position). -/
+theorem n2n_fin_history_earlier (c : Cfg) (evs : List Ev) (id : Nat) (pre post : List Out)
+    (h : run c init evs = pre ++ Out.fin id :: post) :
+    AcceptedEarlier c evs pre id ∨ FilterDropped c evs id := by
+  have h' := h
+  rw [run_eq_consumeRun] at h'
+  rcases n2n_tool_fin_history_earlier c 0 _ id pre post h' with
+    ⟨pre', a, b, hp, ts1, t, ts2, outT, rest, hev, hrun, hpub, hpre, m, f, p, ae, he, hrest⟩ |
+    ⟨hf, t, ht, m, pick, ae, hev, hid⟩ | ⟨t, _, _, _, _, _, _, _, hs⟩
+  · left
+    obtain ⟨es1, es2', h1, h2, h3⟩ := List.map_eq_append_iff.mp hev
+    obtain ⟨e, es2, rfl, h4, h5⟩ := List.map_eq_cons_iff.mp h3
+    subst h2 h4
+    refine ⟨pre', a, b, hp, es1, e, es2, outT, rest, h1, ?_, hpub, ?_, m, f, p, ae, by simpa using he, hrest⟩
+    · have : (es1 ++ [e]).map (fun e => (⟨0, e⟩ : TEv)) = es1.map (fun e => ⟨0, e⟩) ++ [⟨0, e⟩] := by simp
+      rw [run_eq_consumeRun, run_eq_consumeRun, this]
+      exact hrun
+    · rw [run_eq_consumeRun]; exact hpre
+  · right
+    obtain ⟨e, he, rfl⟩ := List.mem_map.mp ht
+    exact ⟨hf, m, pick, ae, by simpa using hev ▸ he, hid⟩
+  · simp [Http.shouldFail] at hs
+
+/-- non-vacuity: deliver message 7 (published to destination 0), then the transaction result: the `fin 7` has the
+delivery at position 0 of the history behind it. -/
+example : AcceptedEarlier ⟨false, 1, false⟩ [.msg ⟨7, [1]⟩ .drop 0 false, .result 0 true]
+    [Out.publish 0 7 [1], Out.accepted 0 7] 7 :=
+  ⟨[Out.publish 0 7 [1]], 0, [1], rfl, [], .msg ⟨7, [1]⟩ .drop 0 false, [.result 0 true], [Out.publish 0 7 [1]], [],
+    rfl, by decide, by decide, by decide, ⟨7, [1]⟩, .drop, 0, false, rfl, rfl, fun _ => rfl, fun h => by cases h⟩
+example : run ⟨false, 1, false⟩ init [.msg ⟨7, [1]⟩ .drop 0 false, .result 0 true] =
+    [Out.publish 0 7 [1], Out.accepted 0 7] ++ Out.fin 7 :: [] := by decide
+
 /-- full tool-level statement: every `fin` has an accepted transaction or a filter drop behind it -/
 def n2n_tool_fin_only_after_accept (k : Nat) : Prop :=
   ∀ (c : Cfg) (tevs : List TEv) (id : Nat) (pre post : List Out),
